@@ -50,24 +50,40 @@ static DString *gen_doc(int ci, int shape, long d) {
 }
 static int stack_maxdepth_idx = 5;
 static void stack_case_decode(uint64_t i, int *ci, int *shape, int *di, int *wi) { *wi = i % NSW; i /= NSW; *shape = i % 3; i /= 3; *di = i % stack_maxdepth_idx; i /= stack_maxdepth_idx; *ci = (int)i; }
-static void run_stack(uint64_t i) {
-	int ci, shape, di, wi; stack_case_decode(i, &ci, &shape, &di, &wi);
-	if (CONS[ci].per_line && shape) return;
-	DString *d = gen_doc(ci, shape, DEPTHS[di]);
+/* stack high-water mark: paint 4 MB below the current frame, run, then look how far the paint was overwritten */
+#define PAINT (4u << 20)
+__attribute__((noinline)) static void stack_paint(void) { volatile char buf[PAINT]; for (size_t i = 0; i < PAINT; i++) buf[i] = (char)0xA5; __asm__ volatile("" ::: "memory"); }
+__attribute__((noinline)) static size_t stack_used(void) { volatile char buf[PAINT]; size_t i = 0; while (i < PAINT && buf[i] == (char)0xA5) i++; return PAINT - i; }
+static void stack_one(int ci, int shape, long depth, int wi, int record) {
+	DString *d = gen_doc(ci, shape, depth);
 	POOL_INIT();
 	char *out = NULL;
-	if (SW[wi] >= 0) { srand(1); K_TRY(out = mmd_string_convert(d->str, EXT_DEFAULT, SW[wi], 0)); if (out && !k_exited) { k_outcome(k_fnv(out, strlen(out), ci * 131 + wi)); free(out); } }
-	else if (SW[wi] == -1 || SW[wi] == -2) { DString *x = d_string_new(d->str); if (SW[wi] == -1) mmd_critic_markup_accept(x); else mmd_critic_markup_reject(x); k_outcome(k_fnv(x->str, x->currentStringLength, ci)); d_string_free(x, true); }
+	if (SW[wi] >= 0) { srand(1); K_TRY(out = mmd_string_convert(d->str, EXT_DEFAULT, SW[wi], 0)); if (out && !k_exited) { if (record) k_outcome(k_fnv(out, strlen(out), ci * 131 + wi)); free(out); } }
+	else if (SW[wi] == -1 || SW[wi] == -2) { DString *x = d_string_new(d->str); if (SW[wi] == -1) mmd_critic_markup_accept(x); else mmd_critic_markup_reject(x); if (record) k_outcome(k_fnv(x->str, x->currentStringLength, ci)); d_string_free(x, true); }
 	else {      /* deep OPML outline import */
-		DString *x = d_string_new("<?xml version=\"1.0\"?>\n<opml><body>\n"); long n = DEPTHS[di];
+		DString *x = d_string_new("<?xml version=\"1.0\"?>\n<opml><body>\n"); long n = depth;
 		for (long k = 0; k < n; k++) d_string_append(x, "<outline text=\"h\" _note=\"n\">\n");
 		for (long k = 0; k < n; k++) d_string_append(x, "</outline>\n");
 		d_string_append(x, "</body></opml>\n");
-		DString *r = mmd_string_convert_opml_to_text(x->str); if (r) { k_outcome(r->currentStringLength); d_string_free(r, true); }
+		DString *r = mmd_string_convert_opml_to_text(x->str); if (r) { if (record) k_outcome(r->currentStringLength); d_string_free(r, true); }
 		d_string_free(x, true);
 	}
 	d_string_free(d, true);
 	POOL_DRAIN();
+}
+static void run_stack(uint64_t i) {
+	int ci, shape, di, wi; stack_case_decode(i, &ci, &shape, &di, &wi);
+	if (CONS[ci].per_line && shape) return;
+	if (DEPTHS[di] != 100000) { stack_one(ci, shape, DEPTHS[di], wi, 1); return; }
+	/* at 1e5 also compare the stack high-water mark with the one at 1e4: every recursion is capped at ~1000 levels, so ten times
+	   the nesting must not need (much) more stack; growth in proportion to the depth is unbounded recursion that a deeper input
+	   (the statement allows 10^6 bytes of openers) turns into a crash */
+	stack_paint(); stack_one(ci, shape, 10000, wi, 0); size_t u1 = stack_used();
+	stack_paint(); stack_one(ci, shape, 100000, wi, 1); size_t u2 = stack_used();
+	if (u2 > 2 * u1 + (256u << 10)) {
+		char sig[128]; snprintf(sig, sizeof sig, "stack:grows-with-nesting-depth:%s:%s", CONS[ci].name, SW[wi] >= 0 ? FORMAT_NAMES[SW[wi]] : SW[wi] == -1 ? "critic-accept" : SW[wi] == -2 ? "critic-reject" : "opml-import");
+		k_violation(sig, "stack high-water mark %zu bytes at depth 1e4, %zu bytes at depth 1e5 (%s)", u1, u2, shape == 0 ? "openers only" : shape == 1 ? "matched" : "closers only");
+	} else k_note("judged", 1);
 }
 static void desc_stack(uint64_t i, FILE *o) {
 	int ci, shape, di, wi; stack_case_decode(i, &ci, &shape, &di, &wi);
